@@ -442,6 +442,51 @@ func c13Cases(seed int64, tier string) []*c13Case {
 		site.Static[base+"index.m3u8"] = "#EXTM3U\n#EXT-X-STREAM-INF:BANDWIDTH=1,CODECS=\"avc1.42c028\",AUDIO=\"nope\"\nv.m3u8\n"
 		return base + "index.m3u8"
 	})
+	// the leading playlist dies of an unusable track (unsupported codec next to H264, time scale 0,
+	// no data of the leading track, garbage) while an audio rendition is already waiting for it
+	for _, bad := range []string{"ac3", "mjpeg", "lpcm", "timescale0", "no-leading-data", "garbage-segment", "empty-segment"} {
+		bad := bad
+		for _, pdt := range []bool{false, true} {
+			pdt := pdt
+			nm := "mixed/leading-dies-" + bad + "-with-rendition"
+			if pdt {
+				nm += "+date-time"
+			}
+			add(nm, func(site *origin.Site, base string) string {
+				init := vInit
+				segs := vSegs
+				switch bad {
+				case "ac3", "mjpeg", "lpcm":
+					c := unsupported[bad]
+					ts := uint32(48000)
+					if c.IsVideo() {
+						ts = 90000
+					}
+					init = marshalInit([]*fmp4.InitTrack{h264Init(1), {ID: 2, TimeScale: ts, Codec: c}})
+					segs = nil
+					for sg := 0; sg < 2; sg++ {
+						segs = append(segs, marshalParts(&fmp4.Part{SequenceNumber: uint32(sg), Tracks: []*fmp4.PartTrack{
+							{ID: 1, BaseTime: uint64(900000 + sg*4*1800), Samples: h264Samples(4)},
+							{ID: 2, BaseTime: uint64(sg * 4000), Samples: rawSamples(4, 1000)}}}))
+					}
+				case "timescale0":
+					it := h264Init(1)
+					it.TimeScale = 0
+					init = marshalInit([]*fmp4.InitTrack{it})
+				case "no-leading-data":
+					segs = [][]byte{marshalParts(&fmp4.Part{SequenceNumber: 1, Tracks: []*fmp4.PartTrack{{ID: 9, BaseTime: 0, Samples: rawSamples(4, 1000)}}})}
+				case "garbage-segment":
+					segs = [][]byte{[]byte("this is not an mp4 file at all, not even close")}
+				case "empty-segment":
+					segs = [][]byte{{}}
+				}
+				vodFMP4PDT(site, base+"v.m3u8", init, segs, "v", pdt)
+				vodFMP4PDT(site, base+"a.m3u8", aInit, aSegs, "a", pdt)
+				site.Static[base+"index.m3u8"] = mvText("v.m3u8", "a.m3u8")
+				return base + "index.m3u8"
+			})
+		}
+	}
 	add("mixed/unsupported-codecs-only", func(site *origin.Site, base string) string {
 		vodFMP4(site, base+"v.m3u8", vInit, vSegs, "v")
 		site.Static[base+"index.m3u8"] = "#EXTM3U\n#EXT-X-STREAM-INF:BANDWIDTH=1,CODECS=\"mp4v.20.9,ac-3\"\nv.m3u8\n"
@@ -817,7 +862,10 @@ func runC13Case(c *c13Case) *c13Out {
 		if out.Self {
 			goto ended
 		}
-		run.C.Close()
+		if !run.CloseWithin(8 * time.Second) {
+			out.Viol = append(out.Viol, fmt.Sprintf("C13/close-ignored|%s: Close() did not return within 8 s (requests %d)", c.Name, srv.Count()))
+			return out
+		}
 		if !run.WaitResult(8 * time.Second) {
 			out.Viol = append(out.Viol, fmt.Sprintf("C13/close-ignored|%s: the client neither ended nor honoured Close (requests %d)", c.Name, srv.Count()))
 			return out
